@@ -229,6 +229,90 @@ impl World {
     }
 }
 
+fn scheme_stop(n: usize, stop: usize) -> String {
+    let mut s = format!("stop={stop}");
+    for k in 0..stop {
+        s.push_str(&format!("\n{k}={n}-{n}"));
+    }
+    s
+}
+
+/// Per-session clause on one session with explicit factories: `k` packets under the announced scheme
+/// (size 150, stop `old_stop`), then a push of a scheme (size 200, stop `new_stop`), then `m` packets.
+/// Returns the write sizes of every packet.
+fn session_case(old_stop: usize, new_stop: usize, k: usize, m: usize) -> Result<Vec<Vec<usize>>, String> {
+    let slot: Arc<Mutex<Option<Result<Vec<Vec<usize>>, String>>>> = Arc::new(Mutex::new(None));
+    let slot2 = slot.clone();
+    let sc = scenario(move || {
+        let slot2 = slot2.clone();
+        async move {
+            let link = peer_link(PipeCfg::new("s2c"), PipeCfg::new("c2s"));
+            let wire = link.peer.out.clone();
+            let sess = Arc::new(Session::new_client(link.sess_r, link.sess_w, padding(&scheme_stop(150, old_stop)), None));
+            let s2 = sess.clone();
+            tokio::spawn(async move {
+                let _ = s2.recv_loop().await;
+            });
+            let peer = link.peer;
+            let inj = peer.inj.clone();
+            tokio::spawn(peer.sink());
+            let mut ok = true;
+            for i in 0..k {
+                ok &= sess.write_data_frame(1, Bytes::from(vec![i as u8; 20])).await.is_ok();
+            }
+            inj.push(&enc(UPDATE_PADDING, 0, scheme_stop(200, new_stop).as_bytes()));
+            settle().await;
+            tokio::time::sleep(Duration::from_millis(10)).await;
+            for i in 0..m {
+                ok &= sess.write_data_frame(1, Bytes::from(vec![100 + i as u8; 20])).await.is_ok();
+            }
+            let b = batches(&wire);
+            let parse_ok = b.iter().all(|x| parse_all(&x.1).1 == 0);
+            *slot2.lock().unwrap() = Some(if !ok || sess.is_closed() || !parse_ok { Err(format!("writes ok {ok}, closed {}, wire parses {parse_ok}", sess.is_closed())) } else { Ok(b.iter().map(|x| x.0.clone()).collect()) });
+            Outcome::default()
+        }
+    });
+    let mut cfg = ExecCfg::default();
+    cfg.draw = DrawPolicy::Min;
+    let rec = run_exec(&sc, &cfg, &[], 0);
+    if let Some(v) = rec.outcome.violations.first() {
+        return Err(format!("scenario failed: {}", v.detail));
+    }
+    slot.lock().unwrap().take().unwrap_or(Err("no result".into()))
+}
+
+/// Exhaustive grid over (stop of the announced scheme, stop of the pushed scheme, packets sent before the push).
+fn session_grid(rep: &mut Report, thorough: bool) {
+    let stops: Vec<usize> = if thorough { vec![1, 2, 3, 4, 5, 8, 12] } else { vec![1, 2, 3, 5, 8] };
+    let m = 4;
+    let mut cases = 0u64;
+    for &old_stop in &stops {
+        for &new_stop in &stops {
+            for k in 0..=(old_stop.max(new_stop) + 1) {
+                cases += 1;
+                let label = format!("session announced a scheme with stop={old_stop} (size 150), {k} packet(s) sent, push of a scheme with stop={new_stop} (size 200), {m} more packets");
+                rep.case(Some(&format!("grid:{old_stop}:{new_stop}:{k}")));
+                let replay = json!({"engine": "IX-session-grid", "old_stop": old_stop, "new_stop": new_stop, "packets_before_push": k});
+                let writes = match session_case(old_stop, new_stop, k, m) {
+                    Ok(w) => w,
+                    Err(e) => {
+                        rep.violation("C19:session-disturbed", &format!("{label}: {e}"), replay);
+                        continue;
+                    }
+                };
+                // reference: packet p (1-based) is one write of the scheme's size while p < stop of the scheme in force, else the bare 27-byte frame
+                let want: Vec<Vec<usize>> = (1..=k + m).map(|p| if p <= k { if p < old_stop { vec![150] } else { vec![27] } } else if p < new_stop { vec![200] } else { vec![27] }).collect();
+                if writes != want {
+                    let first = (0..want.len()).find(|i| writes.get(*i) != want.get(*i)).unwrap_or(0);
+                    let key = if first < k { "C19:announced-scheme-not-applied" } else { "C19:pushed-scheme-not-adopted-by-session" };
+                    rep.violation(key, &format!("{label}: packet {} went out as {:?}, the scheme in force prescribes {:?} (all packets: {:?})", first + 1, writes.get(first), want[first], writes), replay);
+                }
+            }
+        }
+    }
+    rep.sections.insert("session_grid".into(), json!({"cases": cases, "stops": stops, "packets_after_push": m, "packets_before_push": "0..=max(stop)+1"}));
+}
+
 fn expected_size(s: &Option<String>) -> Option<usize> {
     // None = built-in default scheme: not one of the fixed-size schemes
     s.as_ref().and_then(|t| if t == &scheme(200) { Some(200) } else if t == &scheme(300) { Some(300) } else if t == &scheme(150) { Some(150) } else { None })
@@ -378,6 +462,7 @@ pub fn run(tier: Tier) -> i32 {
             }
         }
     }
+    session_grid(&mut rep, thorough);
     rep.sections.insert("bx".into(), json!({"histories": n, "depth": depth, "alphabet": "T (touch default) | Z (client constructed with a custom scheme), B C D (session + push of scheme B / C / the built-in default text), X (session + unparsable push), R r d (client request against a scripted TLS server using B / C / the built-in default)"}));
-    rep.finish("BX over process histories, one fresh child process each: every history of length <= d over {touch default, session with a push of scheme B / C / an unparsable scheme followed by shaped writes, client request through the real Client against a scripted TLS server}; write sizes after a push must be those of the pushed scheme, sessions created afterwards must start with it and announce its md5, an unparsable push changes nothing; non-trivial = distinct history")
+    rep.finish("BX over process histories, one fresh child process each: every history of length <= d over {touch default, session with a push of scheme B / C / an unparsable scheme followed by shaped writes, client request through the real Client against a scripted TLS server}; write sizes after a push must be those of the pushed scheme, sessions created afterwards must start with it and announce its md5, an unparsable push changes nothing; plus an exhaustive per-session grid (stop of the announced scheme x stop of the pushed scheme x packets sent before the push) comparing every packet's write sizes with the reference shaper; non-trivial = distinct history / grid case")
 }
